@@ -34,6 +34,7 @@ import (
 	"regexp/syntax"
 	"sort"
 	"strconv"
+	"strings"
 	"unicode"
 	"unicode/utf8"
 
@@ -476,6 +477,33 @@ func parseGlue(src string, pp *path.Path, err error) (what string) {
 			_ = dst.UnmarshalText([]byte(glueEarlier))
 			if kept2.String() != before2 {
 				return "a by-value copy of a Path changed when its source variable was unmarshalled again"
+			}
+		}
+	}
+	// a variable that already holds a path takes over exactly what is scanned into it, also when
+	// the new text differs from the old one only in letter case
+	{
+		var dst path.Path
+		if dst.Scan(src) == nil {
+			swapped := strings.Map(func(r rune) rune {
+				switch {
+				case 'a' <= r && r <= 'z':
+					return r - 32
+				case 'A' <= r && r <= 'Z':
+					return r + 32
+				}
+				return r
+			}, src)
+			want, werr := path.Parse(swapped)
+			serr := dst.Scan(swapped)
+			if (werr == nil) != (serr == nil) || (werr == nil && dst.String() != want.String()) {
+				return "Scan into a variable that holds a path differs from Parse (case variant of the held text)"
+			}
+			var viaT path.Path
+			_ = viaT.UnmarshalText([]byte(src))
+			terr := viaT.UnmarshalText([]byte(swapped))
+			if (werr == nil) != (terr == nil) || (werr == nil && viaT.String() != want.String()) {
+				return "UnmarshalText into a variable that holds a path differs from Parse (case variant of the held text)"
 			}
 		}
 	}
